@@ -250,6 +250,25 @@ func c15Scenarios(thorough bool) []c15scen {
 				}
 			}
 		}
+		// (a') the rest of the data arrives: part of what the consumer asks for is there
+		// already (a packet that comes in two segments), the producer commits the rest
+		for _, ck := range []byte{'R', 'P', 'W', 'T'} {
+			for _, n := range []int{2, 8192, size} {
+				for _, pf := range []int{1, n / 2} {
+					if pf <= 0 || pf >= n || (pf == 1 && n == 2 && !thorough) {
+						continue
+					}
+					for _, pk := range []byte{'W', 'C', 'F'} {
+						if pk == 'F' && ck == 'W' && n > size-8192 {
+							continue
+						}
+						o := op{ck, n}
+						po := op{pk, n - pf}
+						out = append(out, c15scen{Start: st, Prefill: pf, Cons: &o, Prod: &po, Drain: n})
+					}
+				}
+			}
+		}
 		// (b) space arrival: full (or nearly full) buffer, producer waits, consumer frees
 		for _, pf := range []int{size, size - 1, 8192} {
 			for _, pk := range []byte{'W', 'C', 'F'} {
